@@ -260,55 +260,55 @@ def run_harness(built, h, canary=False):
             r.secs = time.time() - t0
             return r
         gb = bgb
-    cmd = ["cbmc", gb] + CBMC_CHECKS + ["--json-ui", "--trace", "--verbosity", "6"]
+    base = ["cbmc", gb] + CBMC_CHECKS
     if h.unwind is not None:
-        cmd += ["--unwind", str(h.unwind), "--unwinding-assertions"]
-    cmd += ["--object-bits", str(h.object_bits or 10)]
+        base += ["--unwind", str(h.unwind), "--unwinding-assertions"]
+    base += ["--object-bits", str(h.object_bits or 10)]
     if h.backend == "z3":
-        cmd += ["--z3"]
+        base += ["--z3"]
     elif h.backend == "cvc5":
-        cmd += ["--cvc5"]
+        base += ["--cvc5"]
     elif h.backend == "kissat":
-        cmd += ["--external-sat-solver", "kissat"]
-    cmd += h.extra_cbmc
+        base += ["--external-sat-solver", "kissat"]
+    base += h.extra_cbmc
+    cmd = base + ["--verbosity", "6"]
     r.cmds.append(" ".join(cmd))
     rc, out, err, secs = run(cmd, timeout=h.timeout, mem_gb=h.mem_gb)
     r.solver_secs = secs
     r.secs = time.time() - t0
-    with open(os.path.join(built.dir, tag + ".cbmc.json"), "w") as f:
+    with open(os.path.join(built.dir, tag + ".cbmc.txt"), "w") as f:
         f.write(out)
     if rc == -9:
         r.status, r.reason = "undecided", "cbmc timed out after %ds" % h.timeout
         return r
-    try:
-        msgs = json.loads(out)
-    except ValueError:
-        r.status, r.reason = "undecided", "cbmc output unreadable (rc=%s): %s" % (rc, (err or out)[-800:])
-        return r
     status = None
-    texts = []
-    for m in msgs:
-        if "messageText" in m:
-            texts.append(m["messageText"])
-        if "result" in m:
-            for p in m["result"]:
-                sl = p.get("sourceLocation", {})
-                o = {"id": p.get("property"), "class": sl.get("propertyClass", p.get("property", "").split(".")[-2] if "." in p.get("property", "") else ""),
-                     "function": sl.get("function", ""), "desc": p.get("description", ""), "status": p.get("status"),
-                     "file": sl.get("file", ""), "line": sl.get("line", "")}
-                r.obligations.append(o)
-                if p.get("status") != "SUCCESS":
-                    o2 = dict(o)
-                    o2["ce"] = _extract_ce(p.get("trace", []), h.name)
-                    r.failed.append(o2)
-        if "cProverStatus" in m:
-            status = m["cProverStatus"]
-    r.log = "\n".join(texts)[-4000:]
-    nobody = [t for t in texts if "no body for function" in t or "no body for callee" in t]
-    ignored = [t for t in texts if "ignoring" in t.lower() and ("forall" in t.lower() or "exists" in t.lower())]
+    cur_file, cur_fn = "", ""
+    for line in out.split("\n"):
+        m = re.match(r"^(\S.*) function (\S+)$", line)
+        if m:
+            cur_file, cur_fn = m.group(1), m.group(2)
+            continue
+        m = re.match(r"^\[(.+?)\] (?:line (\d+) )?(.*): (SUCCESS|FAILURE|UNKNOWN|ERROR)$", line)
+        if m:
+            pid = m.group(1)
+            parts = pid.split(".")
+            cls = parts[-2] if len(parts) >= 3 else (parts[-1] if parts else "")
+            o = {"id": pid, "class": cls, "function": cur_fn, "desc": m.group(3), "status": m.group(4),
+                 "file": cur_file, "line": m.group(2) or ""}
+            r.obligations.append(o)
+            if m.group(4) == "FAILURE":
+                r.failed.append(dict(o))
+            continue
+        if line.startswith("VERIFICATION SUCCESSFUL"):
+            status = "success"
+        elif line.startswith("VERIFICATION FAILED"):
+            status = "failure"
+    r.log = out[-4000:]
+    nobody = sorted(set(re.findall(r"no body for (?:function|callee) (\S+)", out)))
+    ignored = re.findall(r"(?i)ignoring.*(?:forall|exists)", out)
     if status == "success":
         if nobody:
-            r.status, r.reason = "undecided", "bodyless function(s) reached: " + "; ".join(sorted(set(nobody)))[:600]
+            r.status, r.reason = "undecided", "bodyless function(s) reached: " + ", ".join(nobody)[:600]
         elif ignored:
             r.status, r.reason = "undecided", "quantifier ignored by the back end"
         elif not r.obligations:
@@ -317,9 +317,48 @@ def run_harness(built, h, canary=False):
             r.status = "proved"
     elif status == "failure":
         r.status = "failed"
+        if not canary:
+            _traces(built, h, r, base, tag)
     else:
-        r.status, r.reason = "undecided", "cbmc ended with status %r (rc=%s): %s" % (status, rc, (err or r.log)[-800:])
+        r.status, r.reason = "undecided", "cbmc ended without a verdict (rc=%s): %s" % (rc, (err or out)[-800:])
     return r
+
+
+def _traces(built, h, r, base, tag):
+    """Counterexamples for the (first few) failing obligations: one extra cbmc run each, restricted
+    to that property.  JSON traces for SAT harnesses; the SMT harnesses carry huge symbolic arrays
+    whose JSON rendering takes minutes, so only scalar inputs are read from their text trace."""
+    seen = set()
+    todo = []
+    for o in r.failed:
+        k = (o["function"], o["class"], o["desc"])
+        if k in seen or o["class"] in MACHINERY_CLASSES:
+            continue
+        seen.add(k)
+        todo.append(o)
+    for o in todo[:4]:
+        if h.backend in ("z3", "cvc5"):
+            cmd = base + ["--trace", "--property", o["id"]]
+            rc, out, err, secs = run(cmd, timeout=min(h.timeout, 300), mem_gb=h.mem_gb)
+            ce = {}
+            for m in re.finditer(r"^  ((?:in|ce)_[A-Za-z0-9_]+)=(-?\d+)[a-z]* ", out, re.M):
+                ce[m.group(1)] = int(m.group(2))
+            for m in re.finditer(r"^  ((?:in|ce)_[A-Za-z0-9_]+)=(TRUE|FALSE) ", out, re.M):
+                ce[m.group(1)] = m.group(2) == "TRUE"
+            for m in re.finditer(r"^  ([GH])=(\d+)[a-z]* ", out, re.M):
+                ce[m.group(1)] = int(m.group(2))
+            o["ce"] = ce
+        else:
+            cmd = base + ["--trace", "--json-ui", "--property", o["id"]]
+            rc, out, err, secs = run(cmd, timeout=min(h.timeout, 600), mem_gb=h.mem_gb)
+            try:
+                msgs = json.loads(out)
+            except ValueError:
+                continue
+            for mm in msgs:
+                for p in mm.get("result", []) if isinstance(mm, dict) else []:
+                    if p.get("status") == "FAILURE" and p.get("property") == o["id"]:
+                        o["ce"] = _extract_ce(p.get("trace", []), h.name)
 
 
 def run_all(built_by_unit, harnesses, tier, jobs=None):
